@@ -283,6 +283,13 @@ impl Memory {
     #[must_use]
     pub fn all_values(self) -> Vec<RuntimeBoxedVal> {
         let mut values = Vec::new();
+        #[cfg(smlxl_storage_layout_extractor_verif)]
+        let group_sizes: Vec<usize> = self
+            .constant_offsets
+            .values()
+            .map(Vec::len)
+            .chain(self.symbolic_offsets.values().map(|stores| stores.len() + 1))
+            .collect();
         self.constant_offsets
             .into_values()
             .for_each(|more| values.extend(more.into_iter().map(|s| s.data)));
@@ -292,7 +299,7 @@ impl Memory {
         });
 
         #[cfg(smlxl_storage_layout_extractor_verif)]
-        crate::verif_hooks::order("vm.memory.export", &mut values);
+        crate::verif_hooks::order_groups("vm.memory.export", &mut values, &group_sizes);
         values
     }
 }
